@@ -144,7 +144,7 @@ fn gen_xcfg(rng: &mut Xoroshiro128StarStar, only: Option<char>) -> XCfg {
         'N' => vec![start.to_string(), n.to_string(), tick.to_string(), pr(rng), pr(rng), pr(rng), rng.gen_range(1..20u32).to_string(),
                     ["0", "1", "3", "-2"][rng.gen_range(0..4)].into(), ["1/2", "1", "3", "10"][rng.gen_range(0..4)].into()],
         _ => vec![start.to_string(), n.to_string(), tick.to_string(), pr(rng), rng.gen_range(1..20u32).to_string(),
-                  ["1/2", "1/4", "1", "1/3", "7/10"][rng.gen_range(0..5)].into(), ["1", "5", "40", "1/3", "-2"][rng.gen_range(0..5)].into(),
+                  ["1/2", "1/4", "1", "1/3", "7/10", "3/2"][rng.gen_range(0..6)].into(), ["1", "5", "40", "1/3", "-2"][rng.gen_range(0..5)].into(),
                   ["1/100", "1/2", "4", "1/7", "-1/2"][rng.gen_range(0..5)].into(), ["0", "1/2", "1", "2", "1/3"][rng.gen_range(0..5)].into(),
                   ["0", "1", "-1"][rng.gen_range(0..3)].into(), ["1/2", "1", "3", "10"][rng.gen_range(0..4)].into()],
     };
